@@ -1,4 +1,5 @@
 """C20 — command-line tools mirror the library: exit status, tokens and key conversion."""
+import hmac, hashlib
 import base64, json, os, random, re, subprocess, shutil
 from concurrent.futures import ThreadPoolExecutor
 import vf
@@ -232,6 +233,65 @@ def run(tier, seed, replay):
                 rep.violation("jwt-verify-nonzero-without-failures:%s" % mode, "jwt-verify exits %d although every token verifies" % rc, dict(n=n, mode=mode, stderr=err))
             if f > 0 and rc == 0:
                 rep.violation("jwt-verify-exit0-with-failures:%s:failing=%d" % (mode, f), "jwt-verify exits 0 although %d of %d tokens fail" % (f, n), dict(n=n, failing=f, mode=mode))
+    # the library as the oracle: hand-made tokens (header and payload serialised in many valid ways, and invalid ones) get the library's own
+    # verdict from the helper; jwt-verify must exit 0 exactly for those the library accepts (one by one as argument and on stdin)
+    kbytes = base64.urlsafe_b64decode(json.load(open(hkey))["k"] + "==")
+    kalg = json.load(open(hkey)).get("alg", "HS256")
+    dg = {"HS256": hashlib.sha256, "HS384": hashlib.sha384, "HS512": hashlib.sha512}[kalg]
+    b64 = lambda b: base64.urlsafe_b64encode(b).rstrip(b"=").decode()
+    def mk(h, p_, sig=None):
+        msg = b64(h.encode()) + "." + b64(p_.encode())
+        s_ = hmac.new(kbytes, msg.encode(), dg).digest() if sig is None else sig
+        return msg + "." + b64(s_)
+    HS = ['{"alg":"%s"}', '{"alg":"%s","typ":"JWT"}', '{"typ":"JWT","alg":"%s"}', '{ "alg":"%s" }', '{"alg" : "%s"}', '{\n  "alg": "%s",\n  "typ": "JWT"\n}',
+          '{\t"alg":"%s"}', ' {"alg":"%s"}', '{"alg":"%s"} ', '\n{"alg":"%s"}\n', '{"alg":"%s","kid":"k1","cty":"x","x":[1,2,{"y":null}]}', '{"a":1,"alg":"%s"}',
+          '{"alg":"%s","crit":["exp"]}', '{"alg":"\\u00%02x%s"}', '{"\\u0061lg":"%s"}', '{"alg":"%s","b64":true}', '{"zzz":{"alg":"none"},"alg":"%s"}',
+          '{"alg":"%s","typ":null}', '{"alg":"%s","n":1.5e3}', '[{"alg":"%s"}]', '{"alg":["%s"]}', '{"alg":"%s"', '{"ALG":"%s"}', '{"alg":"%s ","typ":"JWT"}', '{}', '', 'null']
+    PS_ = ['{"iss":"x"}', '{}', '{ "iss" : "x" }', '{\n "iss": "x"\n}', ' {"iss":"x"}', '{"iss":"x"} ', '{"n":1e2,"a":[],"o":{}}', '{"exp":99999999999}', '{"exp":1}', '{"nbf":99999999999}',
+           '[1]', '"s"', '{"iss":"x"', '', '{"iss":"\\u00e9\\ud83d\\ude00"}']
+    htoks = []
+    for hi, h in enumerate(HS):
+        if h.count("%") == 2:
+            h = h % (ord(kalg[0]), kalg[1:])
+        elif "%s" in h:
+            h = h % kalg
+        for pi, p_ in enumerate(PS_ if hi < 12 else PS_[:3]):
+            htoks.append(mk(h, p_))
+    htoks.append(mk(HS[0] % kalg, PS_[0], b"\0" * dg().digest_size))
+    htoks.append(mk(HS[0] % kalg, PS_[0])[:-1])
+    htoks.append(mk('{"alg":"none"}', PS_[0], b""))
+    htoks = [x for x in dict.fromkeys(htoks) if "\n" not in x]
+    tf = os.path.join(rd, "handmade_tokens.txt")
+    open(tf, "w").write("\n".join(htoks) + "\n")
+    rc, out, err = sh([helper, "--mode", "verdicts", "--arg1", hkey, "--arg2", tf])
+    lib = {}
+    for l in out.splitlines():
+        if l.startswith('["VD"'):
+            e_ = json.loads(l); lib[e_[1]] = e_[2]
+    if rc != 0 or len(lib) != len(htoks):
+        raise vf.HarnessFailure("library verdict helper failed: rc %d, %d of %d verdicts: %s" % (rc, len(lib), len(htoks), err[-300:]))
+    rep.count("handmade_tokens", len(htoks)); rep.count("handmade_tokens_library_accepts", sum(1 for v in lib.values() if v == 0))
+    vf.need(rep, sum(1 for v in lib.values() if v == 0) >= 20 and sum(1 for v in lib.values() if v != 0) >= 20, "hand-made tokens do not exercise both verdicts")
+    def one_tok(i):
+        a_ = subprocess.run([T["jwt-verify"], "-q", "-k", hkey, htoks[i]], capture_output=True, env=env)
+        b_ = subprocess.run([T["jwt-verify"], "-q", "-k", hkey, "-"], input=(htoks[i] + "\n").encode(), capture_output=True, env=env)
+        return i, a_.returncode, b_.returncode, (a_.stderr + b_.stderr).decode("latin-1")[-300:]
+    with ThreadPoolExecutor(vf.NCPU) as ex:
+        for i, ra, rb, err in ex.map(one_tok, range(len(htoks))):
+            rep.evaluations += 2
+            hdr_txt = base64.urlsafe_b64decode(htoks[i].split(".")[0] + "===").decode("latin-1")[:60]
+            rep.distinct.add(("handmade", i))
+            if "Sanitizer" in err:
+                rep.violation("tool-sanitizer:jwt-verify:handmade", "sanitizer report", dict(token=htoks[i], stderr=err))
+            for mode_, r_ in (("args", ra), ("stdin", rb)):
+                if (r_ == 0) != (lib[i] == 0):
+                    rep.violation("jwt-verify-disagrees-with-library:%s:%s" % (mode_, "tool-rejects" if r_ else "tool-accepts"),
+                                  "jwt-verify exits %d for a token on which jwt_checker_verify (same key, same pin) returns %d" % (r_, lib[i]),
+                                  dict(token=htoks[i], header=hdr_txt, mode=mode_))
+    all_ok = [htoks[i] for i in range(len(htoks)) if lib[i] == 0]
+    p_ = subprocess.run([T["jwt-verify"], "-q", "-k", hkey, "-"], input=("\n".join(all_ok) + "\n").encode(), capture_output=True, env=env)
+    if p_.returncode != 0:
+        rep.violation("jwt-verify-disagrees-with-library:stdin-list:tool-rejects", "jwt-verify exits %d on the list of all hand-made tokens the library accepts" % p_.returncode, dict(n=len(all_ok)))
     # token sizes as argument and on stdin
     for size in ([200, 4000, 8100, 8192, 8300, 12000, 65000] if thorough else [200, 8100, 12000, 40000]):
         rc, out, err = sh([T["jwt-generate"], "-q", "-k", hkey, "-c", "s:pad=" + "p" * size])
